@@ -59,6 +59,17 @@ def mon(w):
             if not isinstance(other, dconnection.DilatedConnectionProtocol) or pstate(other) != "selected":
                 w.flag("leader-confirms", "follower-selected-unconfirmed",
                        "the follower selected link %d but the leader's end is in state %r" % (l.idx, pstate(other) if hasattr(other, "_manager") else type(other).__name__))
+    # the connection the leader selected is the generation's shared connection: unless the network broke it, the follower must
+    # be able to take everything the leader sends on it (a record ahead of the leader's KCM raises in the follower and drops it)
+    for (lidx, sd, broken, tname, msg) in w.__dict__.get("rx_raised", []):
+        l = w.net.links[lidx]
+        far = l.ends[1 - sd].protocol
+        far = getattr(far, "_wrappedProtocol", far)
+        if (not broken and l.ends[sd].owner == w.sides[1].reactor.name and isinstance(far, dconnection.DilatedConnectionProtocol) and pstate(far) == "selected"
+                and w.sides[0].manager._connection is far):
+            w.flag("leader-confirms", "follower-dropped-leaders-selection:%s" % tname,
+                   "the leader selected link %d and is using it, no fault was injected on it, but the follower's end raised %s(%s) on the "
+                   "bytes the leader sent and dropped the connection" % (lidx, tname, msg))
     # remember which used link was lost last (for the fault predicate)
     for l in w.net.links:
         if l.broken and any(pstate(p) == "selected" for i in (0, 1) for (ll, sd, p) in w.protos(i) if ll is l):
@@ -106,6 +117,14 @@ def scenarios(tier):
     S.append(mk("reconverge-lose2-one-listener-dev", no_listen={1: True}, lose=2, dev_bound=4 if q else 5, max_depth=200))
     S.append(mk("reconverge-lose2-two-candidates-dev", lose=2, dev_bound=3 if q else 4, max_depth=240))
     S.append(mk("reconverge-lose1-frames-dev", no_listen={0: True}, lose=1, chunking="frames", dev_bound=4 if q else 5, max_depth=200))
+    # the leader holds un-acked records (sent, or written while down) when the next generation's connection is selected: they are
+    # replayed on the new connection, and the follower must already have been told (KCM) that the connection is the chosen one
+    TU = {0: [[("open", "p"), ("write", 0, b"u1"), ("write", 0, b"u2")]], 1: [[("listen", "p")]]}
+    S.append(mk("reconverge-with-unacked-records-dev", threads=TU, no_listen={1: True}, lose=1, start_explored=False,
+                explored=("deliver", "app", "lose", "conn_ok", "turn", "close"), dev_bound=3 if q else 4, max_depth=200))
+    S.append(mk("reconverge-with-unacked-records-both-ways-dev", threads={0: TU[0], 1: [[("listen", "p")], [("open", "q"), ("write", 0, b"v1")]]},
+                no_listen={0: True}, lose=1, start_explored=False,
+                explored=("deliver", "app", "lose", "conn_ok", "turn", "close"), dev_bound=2 if q else 3, max_depth=200))
     if not q:
         S.append(mk("reconverge-lose1-two-candidates-bfs", lose=1, max_depth=200, max_states=4000000))
         S.append(mk("reconverge-lose3-dev", lose=3, dev_bound=4, max_depth=300))
